@@ -28,6 +28,16 @@ type c19Leaf struct{ id int }
 
 func (l *c19Leaf) Error() string { return fmt.Sprintf("cors: leaf %d", l.id) }
 
+// c19Wrap is a leaf that has a cause of its own (as fmt.Errorf("...: %w", cause) produces): it has an Unwrap() error
+// method, not an Unwrap() []error method, so it was not built by errors.Join and is one leaf, whatever its cause is.
+type c19Wrap struct {
+	id    int
+	cause error
+}
+
+func (l *c19Wrap) Error() string { return fmt.Sprintf("cors: leaf %d: %v", l.id, l.cause) }
+func (l *c19Wrap) Unwrap() error { return l.cause }
+
 // c19Build turns the tree text into an error value and the list of leaf ids it must yield.
 func c19Build(s string, shared bool) (error, []int) {
 	pos, next := 0, 0
@@ -41,6 +51,13 @@ func c19Build(s string, shared bool) (error, []int) {
 				// a field-less error type of the library: all such values are indistinguishable (and, being zero-size,
 				// may even share one address); each occurrence is a leaf of its own and is yielded once per occurrence
 				return new(cfgerrors.IncompatibleWildcardResponseHeaderNameError), []int{0}
+			}
+			if next%5 == 0 { // every fifth leaf wraps a cause: a join of two errors (5th, 15th...) or a plain error (10th, 20th...)
+				var cause error = &c19Leaf{-next}
+				if (next/5)%2 == 1 {
+					cause = errors.Join(&c19Leaf{-next}, &cfgerrors.UnacceptableMethodError{Value: fmt.Sprint(-next - 1000), Reason: "invalid"})
+				}
+				return &c19Wrap{next, cause}, []int{next}
 			}
 			if next%3 == 0 { // every third leaf is one of the library's own error types
 				return &cfgerrors.UnacceptableMethodError{Value: fmt.Sprint(next), Reason: "invalid"}, []int{next}
@@ -74,6 +91,8 @@ func c19Build(s string, shared bool) (error, []int) {
 func c19ID(e error) int {
 	switch e := e.(type) {
 	case *c19Leaf:
+		return e.id
+	case *c19Wrap:
 		return e.id
 	case *cfgerrors.UnacceptableMethodError:
 		var n int
